@@ -24,16 +24,16 @@ macro_rules! object_path_unit {
         }
     };
 }
-// @unit C10.object_path.n6 props=C10,C03 kind=bounded bound=N<=6 fn=zvariant::object_path::validate timeout=600
+// @unit C10.object_path.n6 props=C10,C03 kind=bounded bound=N<=6 fn=zvariant::object_path::validate timeout=1200
 #[cfg(not(verif_skip_c10_object_path__n6))]
 object_path_unit!(c10_object_path__n6, 6, 9, "C10.object_path.n6.accepts_iff_spec");
-// @unit C10.object_path.n10 props=C10,C03 kind=bounded bound=N<=10 tier=thorough fn=zvariant::object_path::validate timeout=1800
+// @unit C10.object_path.n10 props=C10,C03 kind=bounded bound=N<=10 tier=thorough fn=zvariant::object_path::validate timeout=2400
 #[cfg(not(verif_skip_c10_object_path__n10))]
 object_path_unit!(c10_object_path__n10, 10, 13, "C10.object_path.n10.accepts_iff_spec");
 
 // Small complete-alphabet unit (cheap even when the validator's character predicate gets expensive): "/" followed by
 // ONE byte of ANY value (all 256) and optionally a second one -- every byte class directly after the separator.
-// @unit C10.object_path.one_any_byte props=C10,C03 kind=bounded bound="/"+any-byte+optional-byte fn=zvariant::object_path::validate timeout=600
+// @unit C10.object_path.one_any_byte props=C10,C03 kind=bounded bound="/"+any-byte+optional-byte fn=zvariant::object_path::validate timeout=1200
 #[cfg(not(verif_skip_c10_object_path__anybyte))]
 #[cfg(kani)]
 #[kani::proof]
@@ -55,7 +55,7 @@ fn c10_object_path__anybyte() {
 
 // Non-ASCII instances (concrete): UTF-8 sequences whose bytes are "alphanumeric" when misread as Latin-1 / Unicode
 // scalar values must be rejected -- only ASCII [A-Za-z0-9_] elements are valid.
-// @unit C10.object_path.non_ascii_instances props=C10,C03 kind=instance bound=concrete:"/µ","/ê","/münchen","/a/é" fn=zvariant::object_path::validate,<zvariant::ObjectPath.as.TryFrom<&str>>::try_from timeout=600
+// @unit C10.object_path.non_ascii_instances props=C10,C03 kind=instance bound=concrete:"/µ","/ê","/münchen","/a/é" fn=zvariant::object_path::validate,<zvariant::ObjectPath.as.TryFrom<&str>>::try_from timeout=1200
 #[cfg(not(verif_skip_c10_object_path__non_ascii))]
 #[cfg(kani)]
 #[kani::proof]
@@ -75,7 +75,7 @@ fn c10_object_path__non_ascii() {
 }
 
 // "however constructed": TryFrom<&str> and from_static_str accept exactly the grammar (ASCII, N <= 5)
-// @unit C10.try_from.object_path props=C10 kind=bounded bound=ASCII,N<=5 fn=<zvariant::ObjectPath.as.TryFrom<&str>>::try_from,zvariant::ObjectPath::from_static_str timeout=600
+// @unit C10.try_from.object_path props=C10 kind=bounded bound=ASCII,N<=5 fn=<zvariant::ObjectPath.as.TryFrom<&str>>::try_from,zvariant::ObjectPath::from_static_str timeout=1200
 #[cfg(not(verif_skip_c10_try_from_object_path__n5))]
 #[cfg(kani)]
 #[kani::proof]
